@@ -224,9 +224,14 @@ def main(argv=None):
       harness_errors.append("process pool broke: %r" % e)
 
     results.sort(key=lambda r: r["index"])
-    for r in results:
-      if "error" in r:
-        harness_errors.append("run %d: %s" % (r["index"], r["error"][-1500:]))
+    # A run that died inside the simulator itself is void (it decides nothing
+    # either way); isolated ones are recorded in the evidence, more than
+    # max(3, 1 %) of the batch make the whole check a harness error.
+    void_runs = [r for r in results if "error" in r]
+    run_errors = ["run %d: %s" % (r["index"], r["error"][-1500:])
+                  for r in void_runs]
+    if len(void_runs) > max(3, 0.01 * len(results)):
+      harness_errors.extend(run_errors[:5])
     good = [r for r in results if "error" not in r]
     batch_wall = time.time() - t0
 
@@ -399,6 +404,8 @@ def main(argv=None):
           },
           "components": COMPONENTS,
           "harness_errors": harness_errors[:20],
+          "void_runs": len(void_runs),
+          "void_run_errors": run_errors[:5],
       },
       "assumptions": ASSUMPTIONS[prop],
   }
@@ -416,6 +423,8 @@ def main(argv=None):
          wall, n_eval / max(batch_wall, 1e-9) * 3600), flush=True)
   print("faults: %s" % evidence["coverage"]["faults_fired"], flush=True)
   print("determinism: %s" % evidence["coverage"]["determinism"], flush=True)
+  for e in run_errors[:3]:
+    print("VOID-RUN: %s" % e.replace("\n", " | ")[-400:], flush=True)
   if harness_errors:
     for e in harness_errors[:10]:
       print("HARNESS-ERROR: %s" % e, flush=True)
